@@ -117,52 +117,6 @@ Proof. intros. unfold ds_flush. cbn. apply implicit_body. Qed.
 Lemma append_body : forall b d, d_body (ds_append b d) = d_body d ++ b.
 Proof. intros. unfold ds_append. destruct b; cbn; [now rewrite app_nil_r | reflexivity]. Qed.
 
-(* ------------------------------------------------------------------ a sealed writer accepts no byte *)
-Definition cl0 : headers := [(K_CL, [str "0"%string])].
-Lemma cl_of_cl0 : cl_of cl0 = Some 0.
-Proof. reflexivity. Qed.
-
-Definition sealed (d : ds) : Prop :=
-  d_body d = [] /\
-  match d_final d with
-  | Some c => body_allowed c = false \/ cl_of (d_snap d) = Some 0
-  | None => cl_of (d_live d) = Some 0
-  end.
-
-Lemma sealed_write_header : forall c d, sealed d -> sealed (ds_write_header true c d).
-Proof.
-  intros c d [Hb Hs]. unfold ds_write_header. destruct (d_final d) eqn:E.
-  - split; [exact Hb | rewrite E; exact Hs].
-  - destruct (true && is_info c); split; cbn; try exact Hb; try exact Hs. right; exact Hs.
-Qed.
-
-Lemma sealed_implicit : forall d, sealed d -> sealed (ds_implicit true d).
-Proof. intros d H. unfold ds_implicit. destruct (d_final d) eqn:E; [exact H | apply sealed_write_header; exact H]. Qed.
-
-Lemma sealed_write : forall b d, sealed d -> sealed (ds_write true b d).
-Proof.
-  intros b d H. unfold ds_write. pose proof (sealed_implicit d H) as [Hb Hs].
-  pose proof (implicit_final true d) as Hf. rewrite Hf in Hs.
-  destruct (ds_accepts true b (ds_implicit true d)) eqn:A; [|split; [exact Hb | rewrite Hf; exact Hs]].
-  unfold ds_accepts in A. rewrite Hf in A. cbn in A.
-  destruct Hs as [Hs|Hs]; [rewrite Hs in A; discriminate|].
-  rewrite Hs, Hb in A. apply andb_true_iff in A as [_ A]. apply N.leb_le in A.
-  assert (b = []) as -> by (apply blen_zero; unfold blen in *; cbn in A; lia).
-  unfold ds_append. cbn. split; [exact Hb | rewrite Hf; right; exact Hs].
-Qed.
-
-Lemma sealed_flush : forall d, sealed d -> sealed (ds_flush true d).
-Proof.
-  intros d H. pose proof (sealed_implicit d H) as [Hb Hs]. unfold ds_flush, sealed. cbn. split; assumption.
-Qed.
-
-Lemma sealed_set_cl0 : forall d, d_body d = [] -> (d_final d = None \/ sealed d) -> sealed (ds_set_live cl0 d).
-Proof.
-  intros d Hb H. unfold sealed, ds_set_live. cbn. split; [exact Hb|].
-  destruct (d_final d) eqn:E; [|reflexivity].
-  destruct H as [H|[_ H]]; [discriminate | rewrite E in H; exact H].
-Qed.
-
 (* ------------------------------------------------------------------ the interruption is sticky *)
 Lemma resp_headers_sticky : forall cfg c live t x, t_intr t = Some x -> t_intr (tx_resp_headers cfg c live t) = Some x.
 Proof. intros. unfold tx_resp_headers. destruct (3 <=? t_last t); cbn; [exact H|]. rewrite H. cbn. reflexivity. Qed.
@@ -223,16 +177,6 @@ Lemma block_wrote : forall sk it m, i_wrote (m_ic (ic_block sk it m)) = i_wrote 
 Proof. intros. unfold ic_block. rewrite fh_wrote. reflexivity. Qed.
 Lemma block_hflushed : forall sk it m, i_hflushed (m_ic (ic_block sk it m)) = true.
 Proof. intros. unfold ic_block. apply fh_hflushed. Qed.
-
-Lemma block_sealed : forall it m, d_body (m_ds m) = [] ->
-  ((i_hflushed (m_ic m) = false /\ d_final (m_ds m) = None) \/ sealed (m_ds m)) ->
-  sealed (m_ds (ic_block true it m)).
-Proof.
-  intros it m Hb H. unfold ic_block, ic_flush_header. cbn.
-  assert (sealed (ds_set_live cl0 (m_ds m))) as S.
-  { apply sealed_set_cl0; [exact Hb|]. destruct H as [[_ H]|H]; [left|right]; exact H. }
-  destruct (i_hflushed (m_ic m)); cbn; [exact S | apply sealed_write_header; exact S].
-Qed.
 
 Lemma wh_tx : forall cfg sk c m,
   m_tx (ic_write_header cfg sk c m) =
@@ -301,84 +245,17 @@ Qed.
 Lemma buffering_write_resp : forall cfg b t, buffering cfg (fst (fst (tx_write_resp cfg b t))) = buffering cfg t.
 Proof. intros. unfold buffering, processable. rewrite write_resp_ct. reflexivity. Qed.
 
-Lemma release_sealed : forall m, i_hflushed (m_ic m) = true -> sealed (m_ds m) ->
-  sealed (m_ds (ic_release true m)).
+Lemma write_inv : forall cfg sk b m, inv cfg m -> inv cfg (ic_write cfg sk b m).
 Proof.
-  intros m Hf S. unfold ic_release. destruct (i_released (m_ic m)); [exact S|].
-  unfold ic_flush_header. rewrite Hf. cbn [m_ds m_tx m_ic].
-  destruct (bytes_nil (t_rbuf (m_tx m))); [exact S | apply sealed_write; exact S].
-Qed.
-
-Lemma release_hflushed : forall sk m, i_hflushed (m_ic m) = true -> i_hflushed (m_ic (ic_release sk m)) = true.
-Proof.
-  intros sk m Hf. unfold ic_release. destruct (i_released (m_ic m)); [exact Hf|].
-  cbn. apply fh_hflushed.
-Qed.
-
-(* a Write that reaches a sealed writer after the interruption of its own implicit WriteHeader *)
-Lemma write_after_own_block : forall cfg b m1,
-  t_intr (m_tx m1) <> None -> i_wrote (m_ic m1) = true -> i_hflushed (m_ic m1) = true ->
-  sealed (m_ds m1) ->
-  blocked
-    (if buffering cfg (m_tx m1) && negb (i_released (m_ic m1)) then
-       let '(t', it, n) := tx_write_resp cfg b (m_tx m1) in
-       let m2 := mw_set_tx t' m1 in
-       match it with
-       | Some it => ic_block true it m2
-       | None =>
-         if n =? blen b then m2
-         else let m3 := ic_release true m2 in
-              if i_released (m_ic m3) then mw_set_ds (ds_write true (dropN n b) (m_ds m3)) m3 else m3
-       end
-     else let m2 := ic_flush_header true m1 in mw_set_ds (ds_write true b (m_ds m2)) m2).
-Proof.
-  intros cfg b m1 Hi Hw Hf S.
-  destruct (buffering cfg (m_tx m1) && negb (i_released (m_ic m1))).
-  - destruct (tx_write_resp cfg b (m_tx m1)) as [[t' it] n] eqn:E.
-    assert (t_intr t' <> None) as Hi'.
-    { destruct (t_intr (m_tx m1)) eqn:X; [|congruence].
-      pose proof (write_resp_sticky cfg b (m_tx m1) i X) as Y. rewrite E in Y. cbn in Y. congruence. }
-    destruct it as [it|].
-    + spl3; [rewrite block_tx; exact Hi' | rewrite block_wrote; exact Hw | rewrite block_body; apply S].
-    + destruct (n =? blen b); [spl3; try assumption; apply S|].
-      cbv zeta.
-      remember (ic_release true (mw_set_tx t' m1)) as m3 eqn:M3.
-      assert (sealed (m_ds m3)) as S3 by (subst m3; apply release_sealed; [exact Hf | exact S]).
-      assert (m_tx m3 = t') as T3 by (subst m3; rewrite release_tx; reflexivity).
-      assert (i_wrote (m_ic m3) = true) as W3 by (subst m3; rewrite release_wrote; exact Hw).
-      clear M3.
-      destruct (i_released (m_ic m3)).
-      * spl3; cbn [mw_set_ds m_tx m_ic m_ds]; [rewrite T3; exact Hi' | exact W3 |].
-        apply (sealed_write (dropN n b)) in S3. apply S3.
-      * spl3; [rewrite T3; exact Hi' | exact W3 | apply S3].
-  - cbv zeta. unfold ic_flush_header. rewrite Hf. cbn [mw_set_ds m_tx m_ic m_ds].
-    spl3; try assumption. apply (sealed_write b) in S. apply S.
-Qed.
-
-Lemma write_inv : forall cfg b m, inv cfg m -> inv cfg (ic_write cfg true b m).
-Proof.
-  intros cfg b m H. unfold ic_write.
+  intros cfg sk b m H. unfold ic_write.
   destruct (t_intr (m_tx m)) eqn:I; [exact H|].
-  set (m1 := if i_wrote (m_ic m) then m else ic_write_header cfg true 200 m).
+  set (m1 := if i_wrote (m_ic m) then m else ic_write_header cfg sk 200 m).
   assert (inv cfg m1) as H1 by (subst m1; destruct (i_wrote (m_ic m)); [exact H | apply wh_inv; exact H]).
   assert (i_wrote (m_ic m1) = true) as W1
     by (subst m1; destruct (i_wrote (m_ic m)) eqn:W; [exact W | apply wh_wrote]).
   destruct (t_intr (m_tx m1)) eqn:I1.
-  - (* interrupted by the implicit WriteHeader of this very Write *)
-    right; right.
-    destruct (i_wrote (m_ic m)) eqn:W; [subst m1; congruence|].
-    destruct H as [[_ [W' _]]|[[_ [Hb Hfresh]]|[Hn _]]]; try congruence.
-    destruct (Hfresh W) as [Hf Hfin].
-    assert (m1 = ic_block true i (mkmw (tx_resp_headers cfg 200 (d_live (m_ds m)) (m_tx m))
-                                      (mkic 200 (i_hflushed (m_ic m)) true (i_released (m_ic m)) (i_allow (m_ic m)))
-                                      (m_ds m))) as M1.
-    { subst m1. unfold ic_write_header. rewrite W.
-      pose proof (wh_tx cfg true 200 m) as T. rewrite W in T. rewrite T in I1. rewrite I1. reflexivity. }
-    apply write_after_own_block.
-    + congruence.
-    + exact W1.
-    + rewrite M1. apply block_hflushed.
-    + rewrite M1. apply block_sealed; cbn; [exact Hb | left; split; assumption].
+  - (* interrupted by the implicit WriteHeader of this very Write: nothing else happens *)
+    exact H1.
   - (* not interrupted so far *)
     destruct (buffering cfg (m_tx m1) && negb (i_released (m_ic m1))) eqn:B.
     + assert (pre m1) as P1.
@@ -396,7 +273,7 @@ Proof.
       * assert (t_intr t' = None) as I' by (destruct Hit as [Hit|[_ Hit]]; [congruence | subst; exact I1]).
         destruct (n =? blen b).
         { right; left. spl3; try assumption. cbn. rewrite W1. discriminate. }
-        set (m3 := ic_release true (mw_set_tx t' m1)).
+        set (m3 := ic_release sk (mw_set_tx t' m1)).
         assert (m_tx m3 = t') as T3 by (subst m3; rewrite release_tx; reflexivity).
         assert (i_wrote (m_ic m3) = true) as W3 by (subst m3; rewrite release_wrote; exact W1).
         destruct (i_released (m_ic m3)) eqn:R3.
@@ -414,10 +291,10 @@ Proof.
       spl3; cbn; rewrite ?fh_tx, ?fh_wrote, ?fh_released; assumption.
 Qed.
 
-Lemma flush_inv : forall cfg m, inv cfg m -> inv cfg (ic_flush cfg true m).
+Lemma flush_inv : forall cfg sk m, inv cfg m -> inv cfg (ic_flush cfg sk m).
 Proof.
-  intros cfg m H. unfold ic_flush.
-  set (m1 := if i_wrote (m_ic m) then m else ic_write_header cfg true 200 m).
+  intros cfg sk m H. unfold ic_flush.
+  set (m1 := if i_wrote (m_ic m) then m else ic_write_header cfg sk 200 m).
   assert (inv cfg m1) as H1 by (subst m1; destruct (i_wrote (m_ic m)); [exact H | apply wh_inv; exact H]).
   destruct (i_allow (m_ic m1) && i_hflushed (m_ic m1)) eqn:AF; [|exact H1].
   unfold inv, safe, pre, blocked in *. cbn [mw_set_ds m_tx m_ic m_ds]. rewrite flush_body.
@@ -429,9 +306,9 @@ Qed.
 Lemma setlive_inv : forall cfg h m, inv cfg m -> inv cfg (mw_set_ds (ds_set_live h (m_ds m)) m).
 Proof. intros cfg h m H. exact H. Qed.
 
-Lemma step_inv : forall cfg op m, inv cfg m -> inv cfg (mw_step cfg true m op).
+Lemma step_inv : forall cfg sk op m, inv cfg m -> inv cfg (mw_step cfg sk m op).
 Proof.
-  intros cfg op m H. destruct op; cbn [mw_step].
+  intros cfg sk op m H. destruct op; cbn [mw_step].
   - apply wh_inv; exact H.
   - apply setlive_inv; exact H.
   - apply setlive_inv; exact H.
@@ -444,16 +321,16 @@ Proof.
   - exact H.
 Qed.
 
-Lemma steps_inv : forall cfg ops m, inv cfg m -> inv cfg (fold_left (mw_step cfg true) ops m).
+Lemma steps_inv : forall cfg sk ops m, inv cfg m -> inv cfg (fold_left (mw_step cfg sk) ops m).
 Proof.
-  intros cfg ops. induction ops as [|op ops IH]; intros m H; cbn; [exact H|].
+  intros cfg sk ops. induction ops as [|op ops IH]; intros m H; cbn; [exact H|].
   apply IH. apply step_inv. exact H.
 Qed.
 
-Lemma finish_blocked_body : forall cfg m, inv cfg m ->
-  t_intr (m_tx (ic_finish cfg true m)) <> None -> d_body (m_ds (ic_finish cfg true m)) = [].
+Lemma finish_blocked_body : forall cfg sk m, inv cfg m ->
+  t_intr (m_tx (ic_finish cfg sk m)) <> None -> d_body (m_ds (ic_finish cfg sk m)) = [].
 Proof.
-  intros cfg m H. unfold ic_finish.
+  intros cfg sk m H. unfold ic_finish.
   destruct (t_intr (m_tx m)) eqn:I.
   { intros _. destruct H as [[X _]|[[X _]|[_ [_ X]]]]; congruence. }
   destruct (buffering cfg (m_tx m) && negb (i_released (m_ic m))) eqn:B.
@@ -467,12 +344,12 @@ Proof.
   - rewrite fh_tx. cbn. congruence.
 Qed.
 
-(* strict writer: a response that ends interrupted delivered no body byte *)
-Theorem response_block_holds : forall cfg ops,
-  let m := run_mw_handler cfg true ops in
-  t_intr (m_tx m) <> None -> cl_body (client_of true (m_ds m)) = [].
+(* every writer: a response that ends interrupted delivered no body byte *)
+Theorem response_block_holds : forall cfg sk ops,
+  let m := run_mw_handler cfg sk ops in
+  t_intr (m_tx m) <> None -> cl_body (client_of sk (m_ds m)) = [].
 Proof.
-  intros cfg ops m Hi. rewrite client_of_view. cbn.
+  intros cfg sk ops m Hi. rewrite client_of_view. cbn.
   subst m. unfold run_mw_handler in *. apply finish_blocked_body; [|exact Hi].
   apply steps_inv. apply inv_init.
 Qed.
@@ -963,7 +840,7 @@ Lemma sim_write : forall cfg sk b dd m, Rw cfg sk dd m -> i_wrote (m_ic m) = tru
   i_wrote (m_ic (ic_write cfg sk b m)) = true.
 Proof.
   intros cfg sk b dd m H W. pose proof H as [H1 [H2 [H3 _]]].
-  unfold ic_write. rewrite H1, W.
+  unfold ic_write. rewrite H1, W, H1.
   destruct (buffering cfg (m_tx m) && negb (i_released (m_ic m))) eqn:B.
   - destruct (tx_write_resp cfg b (m_tx m)) as [[t' it] n] eqn:E.
     destruct it as [it|].
@@ -1037,30 +914,6 @@ Proof.
   intros. rewrite wh_tx. destruct (i_wrote (m_ic m)); [exact H | apply resp_headers_sticky; exact H].
 Qed.
 
-Lemma write_tail_sticky : forall cfg sk b m1 x, t_intr (m_tx m1) = Some x ->
-  t_intr (m_tx
-    (if buffering cfg (m_tx m1) && negb (i_released (m_ic m1)) then
-       let '(t', it, n) := tx_write_resp cfg b (m_tx m1) in
-       let m2 := mw_set_tx t' m1 in
-       match it with
-       | Some it => ic_block sk it m2
-       | None =>
-         if n =? blen b then m2
-         else let m3 := ic_release sk m2 in
-              if i_released (m_ic m3) then mw_set_ds (ds_write sk (dropN n b) (m_ds m3)) m3 else m3
-       end
-     else let m2 := ic_flush_header sk m1 in mw_set_ds (ds_write sk b (m_ds m2)) m2)) = Some x.
-Proof.
-  intros cfg sk b m1 x I.
-  destruct (buffering cfg (m_tx m1) && negb (i_released (m_ic m1))).
-  - pose proof (write_resp_sticky cfg b (m_tx m1) x I) as Y.
-    destruct (tx_write_resp cfg b (m_tx m1)) as [[t' it] n]. cbn in Y.
-    destruct it; [rewrite block_tx; exact Y|].
-    destruct (n =? blen b); [exact Y|]. cbv zeta.
-    destruct (i_released _); cbn; rewrite release_tx; exact Y.
-  - cbn. rewrite fh_tx. exact I.
-Qed.
-
 (* if a Write ends without interruption, so did its implicit WriteHeader *)
 Lemma write_none_header_none : forall cfg sk b m, i_wrote (m_ic m) = false ->
   t_intr (m_tx (ic_write cfg sk b m)) = None ->
@@ -1071,9 +924,7 @@ Proof.
   destruct (t_intr (m_tx m)) eqn:I.
   { rewrite (write_sticky cfg sk b m i I) in X. congruence. }
   destruct (t_intr (m_tx (ic_write_header cfg sk 200 m))) eqn:J.
-  - exfalso. unfold ic_write in X. rewrite I, W in X.
-    pose proof (write_tail_sticky cfg sk b _ i J) as Y. cbv zeta in X, Y.
-    rewrite Y in X. discriminate.
+  - exfalso. unfold ic_write in X. rewrite I, W, J in X. congruence.
   - split; [reflexivity|]. unfold ic_write at 1 2. rewrite I, J, W, wh_wrote. reflexivity.
 Qed.
 
@@ -1415,11 +1266,11 @@ Proof.
     unfold g_info; (split; [assumption|]); cbn; intro; discriminate.
 Qed.
 
-Theorem response_block_wrap : forall cfg body ops,
-  let r := wrap_handler cfg true body ops in
-  r_invoked r = true -> r_intr r <> None -> cl_body (client_of true (r_ds r)) = [].
+Theorem response_block_wrap : forall cfg sk body ops,
+  let r := wrap_handler cfg sk body ops in
+  r_invoked r = true -> r_intr r <> None -> cl_body (client_of sk (r_ds r)) = [].
 Proof.
-  intros cfg body ops r. subst r. unfold wrap_handler.
+  intros cfg sk body ops r. subst r. unfold wrap_handler.
   destruct (c_engine cfg); cbn [r_intr r_invoked r_ds]; try congruence.
   all: destruct (mw_request cfg body); cbn [r_intr r_invoked r_ds]; try discriminate;
     intros _ X; apply response_block_holds; exact X.
@@ -1500,16 +1351,17 @@ Proof.
   repeat split; try reflexivity. cbn. discriminate.
 Qed.
 
-(* a writer that does not enforce Content-Length (httptest.ResponseRecorder): a phase-3 deny raised
-   inside Write's implicit WriteHeader does not stop that Write's bytes *)
-Lemma response_block_lenient_refuted : exists cfg body ops,
-  let r := wrap_handler cfg false body ops in
+(* F52 (repaired by d961889): before the repair a phase-3 deny raised inside Write's implicit
+   WriteHeader did not stop that Write - a writer that does not enforce Content-Length
+   (httptest.ResponseRecorder) delivered 403 together with the handler's bytes. The former witness,
+   on the repaired code: *)
+Example implicit_header_block_repaired :
+  let cfg := mkcfg EOn false 8 Reject false 8 Reject [] None (fun _ => None)
+                   (fun _ _ => Some (mkintr ADeny 403)) (fun _ _ _ => None) in
+  let r := wrap_handler cfg false [] [HWrite [83; 69; 67]] in
   r_invoked r = true /\ r_intr r = Some (mkintr ADeny 403) /\
-  cl_status (client_of false (r_ds r)) = 403 /\ cl_body (client_of false (r_ds r)) = [83; 69; 67].
-Proof.
-  exists (mkcfg EOn false 8 Reject false 8 Reject [] None (fun _ => None) (fun _ _ => Some (mkintr ADeny 403)) (fun _ _ _ => None)).
-  exists [], [HWrite [83; 69; 67]]. repeat split; reflexivity.
-Qed.
+  cl_status (client_of false (r_ds r)) = 403 /\ cl_body (client_of false (r_ds r)) = [].
+Proof. repeat split; reflexivity. Qed.
 
 (* ------------------------------------------------------------------ the bare handler's client, explicitly *)
 Theorem bare_spec : forall sk body ops, no_late_headers ops = true -> no_own_cl ops = true ->
